@@ -178,7 +178,8 @@ func RunCheck(p *Prop, tier string) int {
 			go func(s int) {
 				defer wg.Done()
 				defer func() { <-sem }()
-				out := filepath.Join(work, fmt.Sprintf("%s-%d.json", variant, s))
+			  for attempt := 0; attempt < 12; attempt++ {
+				out := filepath.Join(work, fmt.Sprintf("%s-%d-%d.json", variant, s, attempt))
 				cmd := exec.Command(exe, "--worker", "--id", p.ID, "--tier", tier, "--variant", variant,
 					"--shard", fmt.Sprintf("%d/%d", s, nshards), "--out", out,
 					"--budget", fmt.Sprint(int(remaining.Seconds())), "--mem", fmt.Sprint(mem), "--bound", fmt.Sprint(passBound))
@@ -226,6 +227,12 @@ func RunCheck(p *Prop, tier string) int {
 				mu.Lock()
 				vres = append(vres, r)
 				mu.Unlock()
+				// a worker that hung or died abandons its current root; a fresh
+				// one carries on with the remaining tickets
+				if err == nil || time.Now().After(deadlineAll) || r.HarnessError != "" {
+					break
+				}
+			  }
 			}(s)
 		}
 		wg.Wait()
